@@ -14,6 +14,7 @@ for id in $ids; do
   case $id in benign:*) dir=/verif/seeded-benign/${id#benign:}; expect=0;; esac
   prop=$(python3 -c "import json,sys;print(json.load(open('$dir/meta.json'))['property'])")
   props=$(python3 -c "import json,sys;m=json.load(open('$dir/meta.json'));print(' '.join(m.get('properties',[m['property']])))")
+  exp=$(python3 -c "import json;print(json.load(open('$dir/meta.json')).get('expect',''))")
   git apply "$dir/patch.diff" || { echo "$id: patch does not apply"; missed=$((missed+1)); continue; }
   if ! go build ./... 2>/dev/null; then echo "$id: does not build"; git checkout -- .; continue; fi
   rc=0; names=""
@@ -24,7 +25,8 @@ for id in $ids; do
   done
   git checkout -- .
   if [ $expect -eq 1 ]; then
-    if [ $rc -eq 0 ]; then echo "MISSED  $id ($props)"; missed=$((missed+1)); else echo "caught  $id ($props): $names" | cut -c1-230; fi
+    if [ $rc -eq 0 ] && [ "$exp" = "missed" ]; then echo "known-gap $id ($props): not detected, as recorded in meta.json";
+    elif [ $rc -eq 0 ]; then echo "MISSED  $id ($props)"; missed=$((missed+1)); else echo "caught  $id ($props): $names" | cut -c1-230; fi
   else
     if [ $rc -ne 0 ]; then echo "FALSE-ALARM $id ($props): $names" | cut -c1-230; alarms=$((alarms+1)); else echo "quiet   $id ($props)"; fi
   fi
